@@ -1,12 +1,112 @@
 import HcipyVerif.Model.Proto
+import HcipyVerif.Model.OpIR
+import HcipyVerif.Model.Effects
+import HcipyVerif.Model.Elements
 
-/-! Line-protocol front end of the C06 model (stub: not built yet). -/
+/-!
+Line-protocol front end of the C06 model.
+
+* `C06 effects NAME` → `ok safe=B retIsInput=B retShares=B writes=a,b|-` : the static verdict of the
+  checker on the named effect program of `Model/Elements.lean` and the observable footprint of
+  running it (the footprint does not depend on the input value or on the meaning of the array
+  operations; the driver runs it on a fixed input with a fixed interpretation).
+* `C06 denote TERM @ [re,im,re,im,…]` → `ok par=lin|conj|mixed [re,im,…]` : exact evaluation of an
+  operator term at Gaussian rationals. `TERM` is prefix notation over tokens:
+  `id | zero N | mul CLIST | mat NROWS CLIST | add T T | sub T T | comp T T | scale RE IM T | conj`.
+-/
 namespace HcipyVerif.Driver.C06
+open HcipyVerif.Proto HcipyVerif.OpIR HcipyVerif.Effects
 
 structure St where
   dummy : Unit := ()
 
+def pairUp : List Rat → Option (List CRat)
+  | [] => some []
+  | re :: im :: rest => (pairUp rest).map (⟨re, im⟩ :: ·)
+  | [_] => none
+
+def parseCList? (s : String) : Option (List CRat) := (parseRatList? s).bind pairUp
+
+def chunks {α} (k : Nat) (fuel : Nat) (l : List α) : List (List α) :=
+  match fuel with
+  | 0 => []
+  | fuel + 1 => if l.isEmpty || k = 0 then [] else l.take k :: chunks k fuel (l.drop k)
+
+/-- Prefix parser; returns the term and the unread tokens. -/
+def parseTerm : Nat → List String → Option (Term CRat × List String)
+  | 0, _ => none
+  | _ + 1, [] => none
+  | fuel + 1, tok :: rest =>
+    match tok with
+    | "id" => some (.id, rest)
+    | "conj" => some (.conj, rest)
+    | "zero" =>
+      match rest with
+      | n :: rest => (parseNat? n).map fun n => (.zero n, rest)
+      | [] => none
+    | "mul" =>
+      match rest with
+      | l :: rest => (parseCList? l).map fun m => (.mulField m, rest)
+      | [] => none
+    | "mat" =>
+      match rest with
+      | n :: l :: rest =>
+        match parseNat? n, parseCList? l with
+        | some n, some flat =>
+          if n = 0 then (if flat.isEmpty then some (.matrix [], rest) else none)
+          else if flat.length % n ≠ 0 then none
+          else some (.matrix (chunks (flat.length / n) n flat), rest)
+        | _, _ => none
+      | _ => none
+    | "scale" =>
+      match rest with
+      | re :: im :: rest =>
+        match parseRat? re, parseRat? im, parseTerm fuel rest with
+        | some re, some im, some (t, rest) => some (.scale ⟨re, im⟩ t, rest)
+        | _, _, _ => none
+      | _ => none
+    | "add" =>
+      match parseTerm fuel rest with
+      | some (s, rest) => (parseTerm fuel rest).map fun (t, rest) => (.add s t, rest)
+      | none => none
+    | "sub" =>
+      match parseTerm fuel rest with
+      | some (s, rest) => (parseTerm fuel rest).map fun (t, rest) => (.sub s t, rest)
+      | none => none
+    | "comp" =>
+      match parseTerm fuel rest with
+      | some (s, rest) => (parseTerm fuel rest).map fun (t, rest) => (.comp s t, rest)
+      | none => none
+    | _ => none
+
+def showCList (l : List CRat) : String :=
+  "[" ++ ",".intercalate (l.map fun z => showRat z.re ++ "," ++ showRat z.im) ++ "]"
+
+def showParity : Option Bool → String
+  | some false => "lin" | some true => "conj" | none => "mixed"
+
+def showAttr : Attr → String
+  | .wavelength => "wavelength" | .stokes => "stokes" | .grid => "grid"
+
+/-- A fixed interpretation of the array operations and a fixed input, for running programs. -/
+def demoSem (op : Nat) (args : List Int) : Int := args.foldl (fun acc a => 31 * acc + a) (op : Int)
+def demoIn : InVal := ⟨5, 3, 7, 11⟩
+
 def step (st : St) : List String → St × String
+  | ["effects", name] =>
+    match HcipyVerif.Elements.programByName name with
+    | some p =>
+      let o := call demoSem p demoIn
+      let w := if o.writes.isEmpty then "-" else ",".intercalate (o.writes.map showAttr)
+      (st, s!"ok safe={showBool (safe p)} retIsInput={showBool o.retIsInput} retShares={showBool o.retSharesBuf} writes={w}")
+    | none => (st, "bad-op")
+  | "denote" :: rest =>
+    match parseTerm (rest.length + 1) rest with
+    | some (t, ["@", v]) =>
+      match parseCList? v with
+      | some x => (st, s!"ok par={showParity (parity t)} {showCList (denote CRat.conj t x)}")
+      | none => (st, "bad-op")
+    | _ => (st, "bad-op")
   | _ => (st, "bad-op")
 
 end HcipyVerif.Driver.C06
